@@ -143,11 +143,21 @@ theorem C20_cex_extras_override_host :
     (runOnce current numVer { site := [("p".toList, "2.0".toList)], index := [] } true [] [(0, "p[extra]==1.0".toList)]).1.site
       = [("p".toList, "1.0".toList)] := by decide
 
-/-- (open C20-F9) an installed / recorded version string that is not PEP 440 makes the install decision raise
-(`InvalidVersion` escapes `install_requirements`): `decidePkg` has no branch that survives it -/
-theorem C20_cex_legacy_installed_version :
+/-- (fixed C20-F9) an installed / recorded version string that is not PEP 440 made the install decision raise
+(`InvalidVersion` escaped `install_requirements`: with `Version(a) != Version(b)` – `Cfg.round3` – `decidePkg` has no
+branch that survives it); today (`same_version`) the package pyscript installed as `2004d` is simply updated to the pin -/
+theorem C20_regress_legacy_installed_version :
+    (runOnce Cfg.round3 numVer { site := [("p".toList, "2004d".toList)], index := [] } true [("p".toList, "2004d".toList)]
+      [(0, "p==1.0".toList)]).2.exc = some "InvalidVersion" ∧
     (runOnce current numVer { site := [("p".toList, "2004d".toList)], index := [] } true [("p".toList, "2004d".toList)]
-      [(0, "p==1.0".toList)]).2.exc = some "InvalidVersion" := by decide
+      [(0, "p==1.0".toList)]).2.args = some ["p==1.0".toList] ∧
+    (runOnce current numVer { site := [("p".toList, "2004d".toList)], index := [] } true [("p".toList, "2004d".toList)]
+      [(0, "p==1.0".toList)]).2.rec' = [("p".toList, "1.0".toList)] ∧
+    -- installed by somebody else in a version that is not PEP 440, recorded by pyscript as 1.0: forgotten, not touched
+    (runOnce current numVer { site := [("p".toList, "2004d".toList)], index := [] } true [("p".toList, "1.0".toList)]
+      [(0, "p==2.0".toList)]).2.args = none ∧
+    (runOnce current numVer { site := [("p".toList, "2004d".toList)], index := [] } true [("p".toList, "1.0".toList)]
+      [(0, "p==2.0".toList)]).2.rec' = [] := by decide
 
 /-- **Highest pin** (`_partial`: exactly the fragment outside findings C20-F6/F7).  When every line means to the
 code what it means to the reference (plain name written in its normal form, pin is a version – or the line is ignored
@@ -232,11 +242,12 @@ theorem C20_generated_rows_are_reference (cfg : Cfg) (ver : Ver V) :
     (∀ recd e, decidePkg cfg ver recd e = decidePkgRef cfg ver recd e) :=
   ⟨branch_eq_ref ver, decidePkg_eq_ref cfg ver⟩
 
-/-- the generated configuration is, value for value, the hand-written one of the end of round 3 (rejection substrings
-`,` `>` `<` `~=` `!=`, first pin validated, byte-order mark stripped; names and versions compared as the findings
-C20-F6/F7/F9/F5 describe), and the other shape parameters are the ones the model was written for -/
+/-- the generated configuration is, value for value, the hand-written `Cfg.round4` (rejection substrings
+`,` `>` `<` `~=` `!=`, first pin validated, byte-order mark stripped, versions compared through `same_version` since the
+repair of C20-F9; names still compared as the open findings C20-F6/F7 describe, nothing recorded after an installer
+failure, C20-F5), and the other shape parameters are the ones the model was written for -/
 theorem C20_current_shape :
-    current = Cfg.round3 ∧ Gen.REQ_COMMENT_MARK = '#' ∧ Gen.REQ_STRIP_AFTER_COMMENT = true ∧ Gen.REQ_SKIP_BLANK = true ∧
+    current = Cfg.round4 ∧ Gen.REQ_COMMENT_MARK = '#' ∧ Gen.REQ_STRIP_AFTER_COMMENT = true ∧ Gen.REQ_SKIP_BLANK = true ∧
     Gen.REQ_PIN_SEP = ('=', '=') ∧ Gen.REQ_MAX_PARTS = 2 ∧ Gen.REQ_OPTIN_GUARD = true := by decide
 
 /-- **Exactly the reference install rule.**  For a table with unique names, a package goes to the installer iff
@@ -316,6 +327,11 @@ theorem C20_decision_never_raises (cfg : Cfg) (ht : cfg.tolerantCmp = true) (ver
   · simp
   · obtain ⟨st', hs⟩ := decideLoop_isSome cfg ver (decidePkg_ne_raise cfg ver ht) t { recd := r, toInstall := [] }
     simp [hs]
+
+/-- … and that is the code today: whatever is recorded, installed or pinned, `install_requirements` never raises out
+of its decision loop (the full statement finding C20-F9 blocked) -/
+theorem C20_never_raises (ver : Ver V) (allow : Bool) (t : Table) (r : Rec) : phase1 current ver allow t r ≠ .raised :=
+  C20_decision_never_raises current rfl ver allow t r
 
 /-- **Idempotence.**  If a run reached the installer stage with `ti`, the installer did its job (`InstallOk`), and
 nothing else touches the site, then the next run over the same files installs nothing and leaves the record as it
